@@ -212,10 +212,11 @@ Section Inv.
   Inductive phase :=
   | PIdle
   | PEnq (x : item) (lb : nat) (sg : option nat) (vis : list nat) (ins : bool)
-  | PDeq (Sn : item -> Prop) (sg : option nat) (vis : list nat) (hadNull emp : bool) (hp0 : hptr)
+  | PDeq (Sn : item -> Prop) (sg : option nat) (vis : list nat) (hadNull emp : bool) (hp0 : hptr) (cur : option (nat * item))
   | PGot (x : item) (rd : bool).
 
-  Record view := mkV { v_idx : nat; v_lock : option (list nat * nat); v_ph : phase }.
+  (** [v_hd]: this thread, holding the lock, has stored a non-null m_pHead (first segment being created) *)
+  Record view := mkV { v_hd : bool; v_idx : nat; v_lock : option (list nat * nat); v_ph : phase }.
 
   Definition Aux := nat -> view.
   Definition aview (a : Aux) (t : nat) : view := a t.
@@ -235,7 +236,7 @@ Section Inv.
         (if ins then inserted g x else ~ inserted g x) /\
         (forall s, sg = Some s -> s < nalloc g) /\
         (forall s i, sg = Some s -> In i vis -> cptr g s i <> None)
-    | PDeq Sn sg vis hadNull emp hp0 =>
+    | PDeq Sn sg vis hadNull emp hp0 cur =>
         In (ev_inv_deq t idx) (evs tr) /\
         (forall y, completed_before tr (ev_ret_enq y) (ev_inv_deq t idx) -> Sn y) /\
         (forall y, Sn y -> inserted g y) /\
@@ -244,7 +245,8 @@ Section Inv.
            cmark g s i = true \/ (hadNull = true /\ forall y, Sn y -> cptr g s i <> Some y)) /\
         (hadNull = true -> forall s, sg = Some s -> forall y s' i', Sn y -> cptr g s' i' = Some y -> s' <= s) /\
         (emp = true -> forall y, Sn y -> marked g y) /\
-        hp g t 0 = hp0
+        hp g t 0 = hp0 /\
+        (forall i x s, cur = Some (i, x) -> sg = Some s -> cptr g s i = Some x)
     | PGot x rd =>
         In (ev_inv_deq t idx) (evs tr) /\ marked g x /\ (rd = false -> hp g t 0 = HItem x)
     end.
@@ -253,6 +255,7 @@ Section Inv.
     vi_ops : forall t' e k, In (t', e) tr -> ev_op e = Some (t, k) ->
                k < v_idx vw \/ (k = v_idx vw /\ v_ph vw <> PIdle /\ ev_is_ret e = false);
     vi_lock : forall l n, v_lock vw = Some (l, n) -> lockw g = true /\ slist g = l /\ nalloc g = n;
+    vi_hd : v_hd vw = true -> v_lock vw <> None /\ headp g <> None;
     vi_ph : PH g tr t (v_idx vw) (v_ph vw)
   }.
 
@@ -336,14 +339,20 @@ Lemma te_cb t tr tr' e1 e2 :
 Proof. intros [->|(te & -> & _)] H C; [exact C|]. eapply cb_snoc_old; eauto. Qed.
 
 (** *** stability of a thread's view under the steps of the others *)
-Lemma PH_stable qf g tr t idx ph g' tr' :
+Definition set_hp0 (ph : phase) (h : hptr) : phase :=
+  match ph with
+  | PDeq Sn sg vis hadNull emp _ cur => PDeq Sn sg vis hadNull emp h cur
+  | _ => ph
+  end.
+
+Lemma PH_stable_hp qf g tr t idx ph g' tr' :
   SI qf g -> TI g tr ->
   PH g tr t idx ph ->
-  hp g' t 0 = hp g t 0 -> nalloc g <= nalloc g' -> lo g <= lo g' ->
+  (forall x, ph = PGot x false -> hp g' t 0 = hp g t 0) -> nalloc g <= nalloc g' -> lo g <= lo g' ->
   cells_evolve t g g' -> trace_evolve t tr tr' ->
-  PH g' tr' t idx ph.
+  PH g' tr' t idx (set_hp0 ph (hp g' t 0)).
 Proof.
-  intros HS HT HP Hhp Hna Hlo Hce Hte. destruct ph as [|x lb sg vis ins|Sn sg vis hadNull emp hp0|x rd]; cbn in *.
+  intros HS HT HP Hhp Hna Hlo Hce Hte. destruct ph as [|x lb sg vis ins|Sn sg vis hadNull emp hp0 cur|x rd]; cbn in *.
   - exact I.
   - destruct HP as (P1 & P2 & P3 & P4 & P5 & P6 & P7). repeat split.
     + exact P1.
@@ -360,7 +369,7 @@ Proof.
         -- destruct P1 as (v & ->). cbn in K0. congruence.
     + intros s E. specialize (P6 s E). lia.
     + intros s i E Hi. eapply ce_nonnull; eauto.
-  - destruct HP as (P1 & P2 & P3 & P4 & P5 & P6 & P7 & P8). repeat split.
+  - destruct HP as (P1 & P2 & P3 & P4 & P5 & P6 & P7 & P8 & P9). repeat split.
     + eapply te_in; eauto.
     + intros y C. apply P2. eapply te_cb; eauto.
     + intros y Hy. eapply ce_inserted; eauto.
@@ -374,11 +383,24 @@ Proof.
       * eapply P6; eauto.
       * exfalso. apply K0. auto.
     + intros He y Hy. eapply ce_marked; eauto.
-    + congruence.
+    + intros i x s E1 E2. eapply ce_ptr; eauto.
   - destruct HP as (P1 & P2 & P3). repeat split.
     + eapply te_in; eauto.
     + eapply ce_marked; eauto.
-    + intros E. rewrite Hhp. auto.
+    + intros E. subst rd. rewrite (Hhp x eq_refl). auto.
+Qed.
+
+Lemma PH_stable qf g tr t idx ph g' tr' :
+  SI qf g -> TI g tr ->
+  PH g tr t idx ph ->
+  hp g' t 0 = hp g t 0 -> nalloc g <= nalloc g' -> lo g <= lo g' ->
+  cells_evolve t g g' -> trace_evolve t tr tr' ->
+  PH g' tr' t idx ph.
+Proof.
+  intros HS HT HP Hhp Hna Hlo Hce Hte.
+  pose proof (PH_stable_hp qf g tr t idx ph g' tr' HS HT HP (fun _ _ => Hhp) Hna Hlo Hce Hte) as K.
+  destruct ph; cbn in *; auto.
+  destruct HP as (_ & _ & _ & _ & _ & _ & _ & E & _). rewrite <- E, <- Hhp. exact K.
 Qed.
 
 Lemma VI_stable qf g tr t vw g' tr' :
@@ -386,17 +408,18 @@ Lemma VI_stable qf g tr t vw g' tr' :
   VI g tr t vw ->
   hp g' t 0 = hp g t 0 -> nalloc g <= nalloc g' -> lo g <= lo g' ->
   cells_evolve t g g' -> trace_evolve t tr tr' ->
-  (v_lock vw <> None -> lockw g' = lockw g /\ slist g' = slist g /\ nalloc g' = nalloc g) ->
+  (v_lock vw <> None -> lockw g' = lockw g /\ slist g' = slist g /\ nalloc g' = nalloc g /\ headp g' = headp g) ->
   VI g' tr' t vw.
 Proof.
-  intros HS HT [V1 V2 V3] Hhp Hna Hlo Hce Hte Hlk. split.
+  intros HS HT [V1 V2 Vh V3] Hhp Hna Hlo Hce Hte Hlk. split.
   - intros t' e k Hin Hop. destruct Hte as [->|(te & -> & Hne)].
     + eapply V1; eauto.
     + apply in_app_or in Hin. destruct Hin as [Hin|[E|[]]].
       * eapply V1; eauto.
       * exfalso. subst te. eapply Hne. exact Hop.
-  - intros l n E. destruct (V2 l n E) as (A & B & C). destruct Hlk as (A' & B' & C'); [congruence|].
+  - intros l n E. destruct (V2 l n E) as (A & B & C). destruct Hlk as (A' & B' & C' & _); [congruence|].
     rewrite A', B', C'. auto.
+  - intros E. destruct (Vh E) as (A & B). split; [exact A|]. destruct (Hlk A) as (_ & _ & _ & D). now rewrite D.
   - eapply PH_stable; eauto.
 Qed.
 
@@ -429,7 +452,7 @@ Lemma Inv_step qf g a tr t g' tr' vw' :
   (forall t', t' <> t -> cells_evolve t' g g') ->
   (forall t', t' <> t -> trace_evolve t' tr tr') ->
   (* lock *)
-  ((forall t', t' <> t -> v_lock (a t') = None) \/ (lockw g' = lockw g /\ slist g' = slist g /\ nalloc g' = nalloc g)) ->
+  ((forall t', t' <> t -> v_lock (a t') = None) \/ (lockw g' = lockw g /\ slist g' = slist g /\ nalloc g' = nalloc g /\ headp g' = headp g)) ->
   (lockw g' = false -> v_lock vw' = None /\ (lockw g = false \/ v_lock (a t) <> None)) ->
   (v_lock vw' <> None -> v_lock (a t) <> None \/ lockw g = false) ->
   (* dequeued items *)
@@ -495,7 +518,7 @@ Lemma Inv_step_plain qf g a tr t g' tr' vw' :
   nalloc g <= nalloc g' -> lo g <= lo g' ->
   (forall t', t' <> t -> cells_evolve t' g g') ->
   (forall t', t' <> t -> trace_evolve t' tr tr') ->
-  ((forall t', t' <> t -> v_lock (a t') = None) \/ (lockw g' = lockw g /\ slist g' = slist g /\ nalloc g' = nalloc g)) ->
+  ((forall t', t' <> t -> v_lock (a t') = None) \/ (lockw g' = lockw g /\ slist g' = slist g /\ nalloc g' = nalloc g /\ headp g' = headp g)) ->
   (lockw g' = false -> v_lock vw' = None /\ (lockw g = false \/ v_lock (a t) <> None)) ->
   (v_lock vw' <> None -> v_lock (a t) <> None \/ lockw g = false) ->
   (forall x, taker vw' x <-> taker (a t) x) ->
